@@ -1,8 +1,9 @@
 #!/usr/bin/env python3
-"""Regenerates /verif/MANIFEST.json from tools/claims.json (claimed properties) and tools/not_applicable.json."""
+"""Regenerates /verif/MANIFEST.json from tools/claims.d/*.json (claimed properties) and tools/not_applicable.json."""
 import json, os
 root = os.path.dirname(os.path.dirname(os.path.abspath(__file__)))
-claims = json.load(open(os.path.join(root, "tools/claims.json")))
+import glob
+claims = [json.load(open(f)) for f in sorted(glob.glob(os.path.join(root, "tools/claims.d/*.json")))]
 na = json.load(open(os.path.join(root, "tools/not_applicable.json")))
 baseline = json.load(open("/root/.vp/BASELINE.json"))["cmd"]
 checks = []
